@@ -19,6 +19,11 @@ CLAIMS = {
    note="Only the eleven keywords of the property; the binder is run up to bindDeclarations; after an invalid-type diagnostic the leftover type is not compared.",
    technique="Lean 4 proof by kernel-evaluated reachable-state table + induction; exhaustive differential correspondence with the real binder",
    ref="DESIGN.md §4 C08"),
+ "C13": dict(
+   text="Lean 4 theorems (Props/C13.lean): the transcribed performIntegerPromotion / performArithmeticConversions / operator dispatch equal the C11 6.3.1.1, 6.3.1.8, 6.5.5-6.5.9, 6.5.16 specification (rank + representability on LP64) for every one of the 18 arithmetic kinds, every ordered pair and every operator of the property (finite, complete: cases <;> rfl); selectTypeForValue returns the first type of the 6.4.4.1 list that represents the value for EVERY value (induction, no bound); suffix decoding by the whole-spelling scanner returns the written suffix for every digit string followed by each of the 23 suffix spellings (induction over the digits); floating suffixes and character-constant prefixes likewise for every body. Tie: hand model <-> real TypeChecker, exhaustive: static functions on all pairs and, end to end through parse+bind+check, typeInfoOf for all 324 pairs x 13 operators x 7 compound assignments and constants at every 2^k boundary x bases x suffix spellings.",
+   note="Platform fixed to LP64 (performArithmeticConversions has no platform parameter); L/u/U character constants use the built-in fallback types; bitwise/logical operators record no type and are outside the property's list; hex floats are not lexed by the front end.",
+   technique="Lean 4 proof by complete case analysis + induction (unbounded values/spellings); exhaustive differential correspondence with the real type checker",
+   ref="DESIGN.md §4 C13"),
  "C17": dict(
    text="Lean 4: generic theorem about the if/else-if trie interpreter (for every well-formed trie, every word of any length and every option valuation: recognised as kind k iff some root-to-return path spells exactly that word, carries kind k and has all its guards true) + four kernel-checked (decide) obligations on the trie that translators/keywords.py REGENERATES from C/parser/Keywords.cpp on every run: no sibling shadowing, nothing after nested chains, every keyword path tests exactly positions 0..n-1 (in bounds), distinct case labels, and set-equality of (spelling, kind, gate) with the hand-written specification table (C89/C99/C11 keywords, macro translations, GNU alternate keywords, extension switches). Corollaries: keyword iff exact spelling and gate; every other word (prefixes, one-character edits, case variants) is an identifier; recognition off => identifier or iso646 operator name. The translator is validated each run by lexing ~14k words x 85 option sets through the real SyntaxTree/Lexer and through the generated trie; the spec table evaluated directly is the oracle that yields failing (options, word) pairs.",
    note="The translator accepts a restricted C++ subset and fails loudly outside it (then: committed trie + full validation, reported as no-failing-input-found). Gates that no standard/manual fixes are recorded from the implementation (listed in KeywordSpec.lean). Reading a character past the word is excluded by the in-bounds obligation, not by running under a sanitizer.",
